@@ -127,4 +127,16 @@ CHECKS["C12"] = {
     "note": "The inventory is syntactic (regex-level reader); determinism of seedless FxHash iteration over counter-keyed tables is exercised, not proved; time/random providers are not read by the generated programs.",
     "design_ref": "DESIGN.md §4 C12",
 }
+CHECKS["C06"] = {
+    "technique": "Lean 4 proof over M-Step (cost and native-stack accounting for every instruction list and nesting depth; guard arithmetic for every size) + translator: the set of natives that re-enter the interpreter regenerated from /repo/src and discharged by decide + per-step instruction counters and one-process-per-program abort search",
+    "text": "step_unit/steps_count_work (on programs whose calls are all script-to-script every step executes exactly one instruction, so a host counting steps counts work, for every program), deep_script_calls_no_native_stack "
+            "(script call depth never consumes native stack), native_depth_of_nest + guard_bounds_stack (native stack use equals the nesting of re-entrant natives and the guard refuses beyond its budget, for every depth), "
+            "alloc_guarded/huge_refused (every size above the limit is refused before allocation, for every n) are Lean theorems; step_unbounded_with_reentrant_native proves the negative part (a re-entrant native makes one step as long as its callback). "
+            "reentrant_allowed is an obligation over Gen/Reentrant.lean which bin/extract regenerates from the Rust sources (every native that calls back into the interpreter) - a new re-entrant native breaks the build until reviewed. "
+            "Generated trampolined programs are stepped with the cfg(tsrun_verif) counters (exactly 1 instruction per step, re-entry depth 0, step/depth budgets stop loops); recursion through 42 call paths and 28 size-taking built-ins x 21 sizes up to 2^53 "
+            "run one process each and must end in a value or a catchable error.",
+    "note": "Known finding: a callback run by a re-entrant native (Array.prototype.map, getters, Proxy traps, ... - the extracted list) executes inside ONE step, so a looping callback is not bounded by step counting. "
+            "Not counted: time spent in a garbage collection triggered by a step; Rust stack use per native frame is bounded by a 1 MB budget measured by stack addresses, not proved.",
+    "design_ref": "DESIGN.md §4 C06",
+}
 NOT_YET = {}
